@@ -412,7 +412,7 @@ func (x *c16Run) exec(k *c16Case, devs []verifhook.Dev, kind, out string, reps i
 	return nil, false
 }
 
-func outcomeSig(o *c16Obs) string {
+func c16OutcomeSig(o *c16Obs) string {
 	h := sha256.New()
 	fmt.Fprintf(h, "%s\n", o.verdict())
 	for _, d := range o.Diags {
@@ -447,7 +447,7 @@ func (x *c16Run) account(ci int, devs []verifhook.Dev, base, ref, r *c16Resp) {
 	if x.outcomes[ci] == nil {
 		x.outcomes[ci] = map[string]int{}
 	}
-	x.outcomes[ci][outcomeSig(&r.Obs)]++
+	x.outcomes[ci][c16OutcomeSig(&r.Obs)]++
 	if len(devs) == 0 {
 		return
 	}
